@@ -79,6 +79,7 @@ def check(ctx):
     ctx.rule("R6", "every node construction in a live action supplies all required (neither ? nor *) fields", floor=150)
     ctx.rule("R7", "int-typed fields (simple, is_async, level, conversion) are computed, not literal, wherever the production admits more than one value", floor=4)
     ctx.rule("R8", "a trailing-comma slot that distinguishes a one-element tuple from a scalar is read by the action", floor=4)
+    ctx.rule("R10", "record-valued nonterminals (comprehension clauses, call arguments, yield arguments ...): every field a child can carry is read, or the child handed on whole, on every path on which it can be present", floor=20)
     ctx.rule("R9", "the generated LALR table on disk (if present) was generated from the grammar of the working tree", floor=1)
 
     asdl = Asdl()
@@ -282,6 +283,11 @@ def check(ctx):
             reads = "p[2]" in txt or "len(p)" in txt or "list(p)" in txt
             ctx.ob("R8", f"{p['file']}:{p['func']}", f"`{p['lhs']} : {' '.join(p['rhs'])}`: the optional trailing comma (one-element tuple vs scalar) is read by the action", reads, key=f"{p['func']}|comma-slot-ignored", where=f"{p['file']}:{p['line']}")
 
+    # ------------------------------------------------------------------ R10
+    from .c01_records import check_records
+
+    check_records(ctx, bodies, prods_of)
+
     # ------------------------------------------------------------------ R9
     tbl = "xonsh/parser_table.py"
     if ctx.repo.exists(tbl):
@@ -377,7 +383,7 @@ def _target_ctx_ok(ctx, g, asdl, fn, cfg, fdefs, ctor, target, prods, kind):
 
 META = {
     "technique": "static analysis over the effective PLY grammar (dumped from the working tree; LALR table generated to find live productions) and MRO-resolved action ASTs, with the running interpreter's ast/token/keyword modules and ast._Unparser tables as oracles",
-    "text": "Not tree equality for all programs (undecidable here) but nine necessary conditions, each checked for "
+    "text": "Not tree equality for all programs (undecidable here) but ten necessary conditions, each checked for "
     "every live production/action rather than for sampled one-liners: every concrete node kind reachable from `mod` "
     "is constructed somewhere; every operator/delimiter spelling and keyword of the interpreter reaches a live "
     "production; the four operator tables and the inline operator constructions agree with ast._Unparser's "
@@ -385,7 +391,9 @@ META = {
     "family; each of ~250 node constructions passes a ctx where the node has one and every required field; binding "
     "targets pass store_ctx/del_ctx on every path (following the value into the child production when needed); "
     "int fields are computed where the production admits several values; the trailing-comma slot of tuple-forming "
-    "productions is read; thorough: the table on disk carries the working tree's grammar signature. Known findings: "
+    "productions is read; dict-valued semantic values (comprehension clauses, call arguments, yield arguments: field "
+    "sets computed by fixpoint over the effective grammar) have every field read, or are handed on whole, on every "
+    "path on which the field can be present; thorough: the table on disk carries the working tree's grammar signature. Known findings: "
     "`**kw: T` after `*args` is not annotatable (vfpdef in a typedargslist production), `for i, in xs`.",
     "note": "Decides the listed structural clauses, not the behaviour. The grammar is read by importing "
     "xonsh.parsers from the analysed tree in a helper subprocess (static initialisers and grammar templating only).",
